@@ -305,6 +305,21 @@ def extract_pipeline(model, modname, fnname):
                 pipe.phases.append(ph)
                 cur = norm(st.targets[0])
                 continue
+        # v = v.translate(TABLE): every key of the table (a code point) is replaced by its text, all at once
+        if isinstance(st, ast.Assign) and len(st.targets) == 1 and isinstance(st.value, ast.Call) \
+                and isinstance(st.value.func, ast.Attribute) and st.value.func.attr == 'translate' \
+                and norm(st.value.func.value) == cur and len(st.value.args) == 1:
+            table = model.fold(modname, st.value.args[0])
+            if not (isinstance(table, dict) and table and all(isinstance(k, int) and isinstance(v_, str) for k, v_ in table.items())):
+                raise Unsupported('%s: translate table %s is not a constant {code point: text}' % (fnname, norm(st.value.args[0])))
+            ph = Phase('sub', 'translate(%s)' % norm(st.value.args[0]), st)
+            ph.cases = [(((k, k),), [('lit', ch) for ch in table[k]]) for k in sorted(table)]
+            ph.case_nodes = [st] * len(ph.cases)
+            ph.regex = None
+            ph.cls = L.iv_norm([(k, k) for k in table])
+            pipe.phases.append(ph)
+            cur = norm(st.targets[0])
+            continue
         if isinstance(st, ast.Return):
             v = st.value
             if isinstance(v, ast.BinOp) and isinstance(v.op, ast.Mod) and norm(v.right) in (cur, '(%s,)' % cur):
